@@ -58,3 +58,73 @@ Theorem C15_cli_model_mode_free : forall m m',
   filter is_call (firstn 6 (cli_model m)) = filter is_call (firstn 6 (cli_model m')).
 Proof. exact cli_model_mode_free. Qed.
 Print Assumptions C15_cli_model_mode_free.
+
+(* Part 5 (KeyOrder.v): "regardless of key order inside YAML mappings" as a theorem about the model.  Two YAML trees are
+   similar (ysim) when a lookup by key cannot tell them apart: equal scalars, lists similar element by element,
+   mappings that answer every key with similar values or both with nothing.  C15_key_permutations_are_similar: a
+   mapping with distinct keys, its entries reordered in any way and their values replaced by similar ones, is similar
+   to the original -- at any depth.  C15_model_key_order: on similar trees the schema layer accepts both or neither
+   and builds the SAME description, so the whole model run (graph, identities, tables, address map, netlist) gives the
+   same netlist or rejects both; only the text of an error message may differ.  The harness's key-permutation
+   contexts (yamlout.text(..., permute=True): the keys of every mapping shuffled) are instances, compared there on the
+   REAL floogen. *)
+From FV Require Import Desc Emit KeyOrder.
+From Coq Require Import Permutation.
+Theorem C15_key_permutations_are_similar : forall m m1 m',
+  NoDup (map fst m) -> Permutation m m1 -> Forall2 (fun a b => fst a = fst b /\ ysim (snd a) (snd b)) m1 m' ->
+  ysim (YMap m) (YMap m').
+Proof. exact ysim_perm. Qed.
+Print Assumptions C15_key_permutations_are_similar.
+
+Theorem C15_model_key_order : forall sp v v', ysim v v' ->
+  match run_yaml sp v, run_yaml sp v' with
+  | Ok n, Ok n' => n = n'
+  | Err _, Err _ => True
+  | _, _ => False
+  end.
+Proof. exact run_yaml_sim. Qed.
+Print Assumptions C15_model_key_order.
+
+Theorem C15_model_key_order_desc : forall v v', ysim v v' ->
+  match parse_desc v, parse_desc v' with
+  | Ok d, Ok d' => d = d'
+  | Err _, Err _ => True
+  | _, _ => False
+  end.
+Proof. exact parse_desc_sim. Qed.
+Print Assumptions C15_model_key_order_desc.
+
+(* non-vacuity: a concrete accepted tree (two endpoints joined directly, ID routing) and the same tree with the keys of
+   the network, of the routing section, of an endpoint, of its address range and of the connection reordered: they are
+   similar (decided by the sound ysimb), both are accepted, and the netlists are equal *)
+From FV Require Import Netlist Paths.
+Example C15_key_order_nonvacuous :
+  let pr (nm : string) (iw : Z) :=
+    YMap [("name", YStr nm); ("protocol", YStr "AXI4"); ("data_width", YInt 64); ("addr_width", YInt 32);
+          ("id_width", YInt iw); ("user_width", YInt 1)] in
+  let ep (nm : string) (st : Z) :=
+    YMap [("name", YStr nm); ("addr_range", YMap [("start", YInt st); ("size", YInt 4096)]);
+          ("mgr_port_protocol", YList [YStr "axi_in"]); ("sbr_port_protocol", YList [YStr "axi_out"])] in
+  let ep' (nm : string) (st : Z) :=
+    YMap [("sbr_port_protocol", YList [YStr "axi_out"]); ("addr_range", YMap [("size", YInt 4096); ("start", YInt st)]);
+          ("name", YStr nm); ("mgr_port_protocol", YList [YStr "axi_in"])] in
+  let tree1 :=
+    YMap [("name", YStr "d"); ("description", YStr "x"); ("network_type", YStr "axi");
+          ("protocols", YList [pr "axi_in" 3; pr "axi_out" 5]);
+          ("endpoints", YList [ep "epa" 0; ep "epb" 4096]);
+          ("routers", YList []);
+          ("connections", YList [YMap [("src", YStr "epa"); ("dst", YStr "epb")]]);
+          ("routing", YMap [("route_algo", YStr "ID"); ("use_id_table", YBool true)])] in
+  let tree2 :=
+    YMap [("routing", YMap [("use_id_table", YBool true); ("route_algo", YStr "ID")]);
+          ("description", YStr "x"); ("name", YStr "d"); ("network_type", YStr "axi");
+          ("endpoints", YList [ep' "epa" 0; ep "epb" 4096]);
+          ("protocols", YList [pr "axi_in" 3; pr "axi_out" 5]);
+          ("routers", YList []);
+          ("connections", YList [YMap [("dst", YStr "epb"); ("src", YStr "epa")]])] in
+  ysim tree1 tree2 /\
+  match run_yaml sp_nx tree1, run_yaml sp_nx tree2 with
+  | Ok a, Ok b => Nat.eqb (length (n_nis a)) 2 && Nat.eqb (length (n_sam b)) 2
+  | _, _ => false
+  end = true.
+Proof. cbv zeta. split; [apply (ysimb_sound 6); vm_compute; reflexivity|vm_compute; reflexivity]. Qed.
